@@ -343,6 +343,15 @@ def main(argv: t.Optional[t.List[str]] = None) -> int:
     seed = int(os.environ.get("VERIF_SEED", "0") or 0)
     setup_path()
     t0 = time.time()
+    # one scratch directory per run, made by the parent and removed when it exits: worker processes end without running their own
+    # atexit handlers, so whatever they need on disk (the NTLM user file) lives below it
+    import atexit
+    import shutil
+    import tempfile
+
+    run_tmp = tempfile.mkdtemp(prefix="verif-run-")
+    os.environ["VERIF_RUN_TMP"] = run_tmp
+    atexit.register(shutil.rmtree, run_tmp, True)
 
     if cid == "CALIBRATE":
         from ref import calibrate
